@@ -203,7 +203,8 @@ func owns(p string, f finding) bool {
 		return cl["text"] && content
 	case "C04":
 		// also: where Resize leaves the cursor and the saved cursor (geometry only)
-		return (cl["motion"] && content) || (cl["resize"] && hasProj(proj, "Mgeo", "Ageo") && !hasProj(proj, "R"))
+		// … and where a buffer switch leaves the cursor and the saved cursor of either buffer
+		return (cl["motion"] && content) || ((cl["resize"] || cl["mode"]) && hasProj(proj, "Mgeo", "Ageo") && !hasProj(proj, "R"))
 	case "C05":
 		return cl["erase"] && content
 	case "C06":
@@ -217,7 +218,12 @@ func owns(p string, f finding) bool {
 	case "C14":
 		return hasProj(proj, "W")
 	case "C17":
-		return (cl["mode"] && proj != "") || hasProj(proj, "V")
+		// also: anything that changes in the buffer that is NOT active (the buffers are independent)
+		inactive := hasProj(proj, "A", "R1")
+		if f.Alt {
+			inactive = hasProj(proj, "M", "R0")
+		}
+		return (cl["mode"] && proj != "") || hasProj(proj, "V") || (inactive && f.Kind == "diverge" && f.Tags != "init" && !cl["resize"])
 	case "C18":
 		// the initial sizing is a Resize too (from the 80x24 default to the case's size)
 		return (cl["resize"] || f.Tags == "init") && proj != ""
